@@ -50,6 +50,12 @@ CLAIMED = {
         technique="symbolic evaluation of static initialisers (syn) against an oracle table, decided by computer algebra",
         design_ref="DESIGN.md section 4 C14",
     ),
+    "C15": dict(
+        level="other",
+        text="Composition skeleton of modifier handling and program unitaries: gate_matrix matches all three GateModifier variants explicitly; constructor/consumer end agreement (Gate::dagger/controlled/forked put the new modifier and qubit at the front, gate_matrix must take the modifier from and drop the qubit at that same end); DAGGER = conj(transpose(recursive)); CONTROLLED = kron(P0, eye(dim M)) + kron(P1, M); FORKED = kron(P0, M(first half)) + kron(P1, M(second half)) with split at len/2 and an odd-count guard, P0/P1 read from the statics' initialisers; Gate::forked guarded by `!=` on parameter counts and appending the alternatives; Program::to_unitary = fold in body order of U(gate).dot(acc) from eye(2^n); Program::dagger = right fold applying Gate::dagger; lifting = P^dagger.(V.P). Numeric content (unitarity, gate tables, permutation construction) is not decided.",
+        technique="HIR match coverage + MIR origin-expression shape checks + constructor/consumer end-agreement table; static initialisers read from MIR",
+        design_ref="DESIGN.md section 4 C15",
+    ),
     "C16": dict(
         level="other",
         text="The matcher's structure decided from source: CalibrationIdentifier::matches reads name, modifiers, parameters and qubits of both the calibration and the gate; its per-qubit table, evaluated with first-match semantics over all 9 kind pairs, equals the documented table; get_match_for_gate visits in definition order and replaces the incumbent on >= of fixed-qubit counts (MatchedCalibration counts exactly Fixed qubits); get_match_for_measurement iterates in reverse, requires equal name and target presence, classifies exact vs wildcard and returns exact.or(wildcard). Parameter equality after simplification is not decided (C12).",
